@@ -117,7 +117,22 @@ def register(reg, ctx):
        "self._pulse_energy / (SPEED_OF_LIGHT * self._pulse_length)")
     reg.contract(MP, "TrivariateGaussian.pulse_length.setter", PROP, name='sigma_z', sorts={"value": "real"}, raises_any=["ValueError"],
         externals={'TrivariateGaussian._function_changed': logged_self('_function_changed')},
-        ensures=[("sigma_z_is_c_tau", "self._stddev_z == value * SPEED_OF_LIGHT")])
+        # representation invariant sigma_z = c * tau: assumed on entry (established by the constructor, below), re-established on exit
+        requires=["self._stddev_z == self._pulse_length * SPEED_OF_LIGHT"],
+        ensures=[("sigma_z_is_c_tau", "self._stddev_z == value * SPEED_OF_LIGHT and self._pulse_length == value")])
+    INIT_EXT = {'TrivariateGaussian._function_changed': logged_self('_function_changed'),
+                'LaserProfile.__init__': {'kind': 'logged', 'result': 'none', 'label': 'super.__init__', 'doc': 'LaserProfile.__init__ (notifier, defaults)'},
+                '.notify': {'kind': 'logged', 'result': 'none', 'label': 'notify', 'doc': 'Notifier.notify()'},
+                'TrivariateGaussian.set_polarization': {'kind': 'logged', 'result': 'none', 'label': 'set_polarization', 'override': True, 'doc': 'polarisation function'},
+                '.set_pointing_function': {'kind': 'logged', 'result': 'none', 'label': 'set_pointing_function', 'doc': 'pointing function'},
+                'ConstantVector3D()': {'kind': 'fresh', 'result': 'ref:ConstantVector3D', 'alloc': True, 'doc': 'raysect constant vector function'},
+                'Vector3D()': {'kind': 'fresh', 'result': 'ref:Vector3D', 'alloc': True, 'doc': 'raysect Vector3D'}}
+    reg.contract(MP, "TrivariateGaussian.__init__", PROP, name='invariant', raises_any=["ValueError"], externals=INIT_EXT,
+        sorts={"pulse_energy": "real", "pulse_length": "real", "mean_z": "real", "laser_length": "real", "laser_radius": "real",
+               "stddev_x": "real", "stddev_y": "real", "polarization": "ref:Vector3D!"},
+        ensures=[("establishes_sigma_z_is_c_tau", "self._stddev_z == self._pulse_length * SPEED_OF_LIGHT and self._pulse_length == pulse_length"),
+                 ("parameters_stored", "self._pulse_energy == pulse_energy and self._stddev_x == stddev_x and self._stddev_y == stddev_y "
+                  "and self._mean_z == mean_z")])
 
     # segmented cylinder
     CYL = {'Cylinder()': {'kind': 'logged', 'result': 'ref:Cylinder', 'alloc': True, 'label': 'Cylinder', 'doc': 'raysect Cylinder primitive'},
@@ -227,6 +242,20 @@ b = GaussianSpectrum(1000.0, 1100.0, 50, **dict(dict(mean=1050.0, stddev=5.0), *
 pa, pb = np.array(a.power_spectral_density), np.array(b.power_spectral_density)
 print(json.dumps({"max_abs_difference_of_binned_psd": float(np.abs(pa - pb).max()), "equal": bool(np.allclose(pa, pb))}))
 ''' % (which, 1060.0 if which == 'mean' else 8.0, which, 1060.0 if which == 'mean' else 8.0)
+    elif 'TrivariateGaussian' in o.name:
+        scen = '''
+from cherab.core.model.laser import TrivariateGaussian
+bad = []
+for tau in (1.0, 2.0, 1e-8, 0.5):
+    for energy in (1.0, 3.0):
+        a = TrivariateGaussian(pulse_energy=energy, pulse_length=tau, stddev_x=0.01, stddev_y=0.02)
+        b = TrivariateGaussian(pulse_energy=7.0, pulse_length=tau * 3.0, stddev_x=0.01, stddev_y=0.02)
+        b.pulse_length = tau; b.pulse_energy = energy
+        va, vb = a.get_energy_density(0.001, 0.002, 0.3), b.get_energy_density(0.001, 0.002, 0.3)
+        if not abs(va - vb) <= 1e-9 * abs(vb):
+            bad.append({"pulse_length": tau, "pulse_energy": energy, "constructed": va, "reached_through_setters": vb})
+print(json.dumps({"bad": bad[:3], "equal": not bad}))
+'''
     elif 'get_max_wavelenth' in o.name:
         scen = '''
 from cherab.core.model.laser import ConstantSpectrum
